@@ -275,7 +275,7 @@ theorem clr_clrInv (y : List ℝ) (hy : y.sum = 0) : clr realA (clrInv realA y) 
 theorem alr_concat (init : List ℝ) (l : ℝ) :
     alr realA (init ++ [l]) = init.map (fun v => Real.logb 2 v - Real.logb 2 l) := by
   unfold alr
-  simp
+  simp only [List.getLast?_append, List.getLast?_singleton, Option.some_or, List.dropLast_concat]
   rfl
 
 theorem alrInv_eq (y : List ℝ) :
@@ -285,6 +285,7 @@ theorem alrInv_alr (x : List ℝ) (hne : x ≠ []) (hx : ∀ v ∈ x, 0 < v) :
     alrInv realA (alr realA x) = closure x := by
   rcases List.eq_nil_or_concat x with h | ⟨init, l, rfl⟩
   · exact absurd h hne
+  rw [List.concat_eq_append] at hx ⊢
   have hl : 0 < l := hx l (by simp)
   rw [alr_concat, alrInv_eq, List.map_map]
   have e : init.map ((fun t => (2 : ℝ) ^ t) ∘ fun v => Real.logb 2 v - Real.logb 2 l) ++ [1]
@@ -317,5 +318,476 @@ theorem alr_alrInv (y : List ℝ) : alr realA (alrInv realA y) = y := by
   ring
 
 end ClrAlr
+
+/-! ## `convexCombination` -/
+
+section Convex
+variable {α : Type} [Field α] [LinearOrder α] [IsStrictOrderedRing α]
+
+theorem range_map_getD (l : List α) : (List.range l.length).map (fun j => l.getD j 0) = l := by
+  apply List.ext_getElem
+  · simp
+  · intro i h1 h2
+    simp [List.getD_eq_getElem?_getD, List.getElem?_eq_getElem h2]
+
+theorem getD_nonneg {l : List α} (h : ∀ v ∈ l, 0 ≤ v) (j : Nat) : 0 ≤ l.getD j 0 := by
+  rw [List.getD_eq_getElem?_getD]
+  by_cases hj : j < l.length
+  · rw [List.getElem?_eq_getElem hj]; exact h _ (List.getElem_mem hj)
+  · rw [List.getElem?_eq_none (by omega)]; simp
+
+theorem convex_cons (p : List α) (ps : List (List α)) (w : List α) :
+    convexCombination (p :: ps) w = (List.range p.length).map (fun j =>
+      (List.zipWith (fun pm wi => pm.getD j 0 * wi) (p :: ps) (closure w)).sum) := by
+  simp only [convexCombination, lsum_eq_sum]
+
+/-- Exchange of the two summations in a weighted sum of columns. -/
+theorem sum_range_zipWith (N : Nat) (ps : List (List α)) (ws : List α) :
+    ((List.range N).map (fun j => (List.zipWith (fun pm wi => pm.getD j 0 * wi) ps ws).sum)).sum
+      = (List.zipWith (fun pm wi => ((List.range N).map (fun j => pm.getD j 0)).sum * wi) ps ws).sum := by
+  induction ps generalizing ws with
+  | nil => simp
+  | cons p ps ih =>
+    cases ws with
+    | nil => simp
+    | cons w ws =>
+      simp only [List.zipWith_cons_cons, List.sum_cons]
+      rw [List.sum_map_add, ih ws, List.sum_map_mul_right]
+
+theorem sum_zipWith_of_one {β : Type} (F : β → α) (ps : List β) (ws : List α)
+    (hF : ∀ pm ∈ ps, F pm = 1) (hlen : ps.length = ws.length) :
+    (List.zipWith (fun pm wi => F pm * wi) ps ws).sum = ws.sum := by
+  induction ps generalizing ws with
+  | nil =>
+    have : ws = [] := by simpa using hlen.symm
+    subst this; simp
+  | cons p ps ih =>
+    cases ws with
+    | nil => simp at hlen
+    | cons w ws =>
+      simp only [List.zipWith_cons_cons, List.sum_cons]
+      rw [hF p (by simp), one_mul, ih ws (fun pm h => hF pm (List.mem_cons_of_mem _ h))
+        (by simpa using hlen)]
+
+theorem sum_zipWith_nonneg {β : Type} (F : β → α) (ps : List β) (ws : List α)
+    (hF : ∀ pm ∈ ps, 0 ≤ F pm) (hw : ∀ v ∈ ws, 0 ≤ v) :
+    0 ≤ (List.zipWith (fun pm wi => F pm * wi) ps ws).sum := by
+  induction ps generalizing ws with
+  | nil => simp
+  | cons p ps ih =>
+    cases ws with
+    | nil => simp
+    | cons w ws =>
+      simp only [List.zipWith_cons_cons, List.sum_cons]
+      have h1 := hF p (by simp)
+      have h2 := hw w (by simp)
+      have h3 := ih ws (fun pm h => hF pm (List.mem_cons_of_mem _ h))
+        (fun v h => hw v (List.mem_cons_of_mem _ h))
+      have := mul_nonneg h1 h2
+      linarith
+
+theorem convex_sum (p : List α) (ps : List (List α)) (w : List α)
+    (hws : w.sum ≠ 0) (hlen : (p :: ps).length = w.length)
+    (hN : ∀ pm ∈ p :: ps, pm.length = p.length) (h1 : ∀ pm ∈ p :: ps, pm.sum = 1) :
+    (convexCombination (p :: ps) w).sum = 1 := by
+  rw [convex_cons, sum_range_zipWith]
+  refine (sum_zipWith_of_one
+    (fun pm : List α => ((List.range p.length).map (fun j => pm.getD j 0)).sum)
+    (p :: ps) (closure w) ?_ ?_).trans ?_
+  rotate_left 2
+  · exact closure_sum w hws
+  · intro pm hpm
+    show ((List.range p.length).map (fun j => pm.getD j 0)).sum = 1
+    rw [← hN pm hpm, range_map_getD, h1 pm hpm]
+  · rw [closure_length]; exact hlen
+
+theorem convex_nonneg (p : List α) (ps : List (List α)) (w : List α)
+    (hw : ∀ v ∈ w, 0 ≤ v) (hnn : ∀ pm ∈ p :: ps, ∀ v ∈ pm, 0 ≤ v) :
+    ∀ v ∈ convexCombination (p :: ps) w, 0 ≤ v := by
+  intro v hv
+  rw [convex_cons] at hv
+  rcases List.mem_map.mp hv with ⟨j, _, rfl⟩
+  exact sum_zipWith_nonneg (fun pm => pm.getD j 0) _ _
+    (fun pm hpm => getD_nonneg (hnn pm hpm) j) (closure_nonneg hw)
+
+theorem convex_getD (p : List α) (ps : List (List α)) (w : List α) (j : Nat) (hj : j < p.length) :
+    (convexCombination (p :: ps) w).getD j 0
+      = (List.zipWith (fun pm wi => wi / w.sum * pm.getD j 0) (p :: ps) w).sum := by
+  rw [convex_cons, List.getD_eq_getElem?_getD, List.getElem?_eq_getElem (by simpa using hj)]
+  simp only [List.getElem_map, List.getElem_range, Option.getD_some]
+  rw [closure_eq, List.zipWith_map_right]
+  have e : (fun (a : List α) (b : α) => a.getD j 0 * (b / w.sum))
+      = (fun (pm : List α) (wi : α) => wi / w.sum * pm.getD j 0) := by
+    funext a b; ring
+  rw [e]
+
+end Convex
+
+/-! ## `replaceZeros` -/
+
+section ReplaceZeros
+variable {α : Type} [Field α] [LinearOrder α] [IsStrictOrderedRing α]
+
+/-- Number of zero entries. -/
+def zc (pmf : List α) : Nat := (pmf.filter (· == 0)).length
+
+theorem zc_nil : zc ([] : List α) = 0 := rfl
+
+theorem zc_cons (p : α) (ps : List α) : zc (p :: ps) = (if p = 0 then 1 else 0) + zc ps := by
+  unfold zc
+  by_cases h : p = 0
+  · simp [h]; omega
+  · simp [h]
+
+/-- What the fold of `replaceZeros` computes, for a fixed scale `c` and replacement stream. -/
+def rzSpec (c : α) : List α → List α → List α
+  | [], _ => []
+  | p :: ps, us =>
+    if p = 0 then
+      match us with
+      | r :: rs => r :: rzSpec c ps rs
+      | [] => p :: rzSpec c ps []
+    else (p * c) :: rzSpec c ps us
+
+theorem rz_fold (c : α) (pmf acc us : List α) :
+    (pmf.foldl (fun (acc : List α × List α) p =>
+      if p == 0 then
+        match acc.2 with
+        | r :: rs => (acc.1 ++ [r], rs)
+        | [] => (acc.1 ++ [p], [])
+      else (acc.1 ++ [p * c], acc.2)) (acc, us)).1 = acc ++ rzSpec c pmf us := by
+  induction pmf generalizing acc us with
+  | nil => simp [rzSpec]
+  | cons p ps ih =>
+    rw [List.foldl_cons]
+    by_cases hp : p = 0
+    · cases us with
+      | nil => simp only [hp, beq_self_eq_true, if_true, ih, rzSpec]; simp
+      | cons r rs => simp only [hp, beq_self_eq_true, if_true, ih, rzSpec]; simp
+    · have : (p == 0) = false := by simpa using hp
+      simp only [this, Bool.false_eq_true, if_false, ih, rzSpec, hp]; simp
+
+theorem replaceZeros_eq (pmf repl : List α) :
+    replaceZeros pmf repl
+      = rzSpec (1 - (repl.take (zc pmf)).sum) pmf (repl.take (zc pmf)) := by
+  unfold replaceZeros
+  simp only [lsum_eq_sum]
+  exact (rz_fold _ pmf [] _).trans (by simp [zc])
+
+theorem rzSpec_length (c : α) (pmf us : List α) : (rzSpec c pmf us).length = pmf.length := by
+  induction pmf generalizing us with
+  | nil => simp [rzSpec]
+  | cons p ps ih =>
+    unfold rzSpec
+    by_cases hp : p = 0
+    · cases us <;> simp [hp, ih]
+    · simp [hp, ih]
+
+theorem rzSpec_sum (c : α) (pmf us : List α) (h : us.length = zc pmf) :
+    (rzSpec c pmf us).sum = us.sum + pmf.sum * c := by
+  induction pmf generalizing us with
+  | nil =>
+    have : us = [] := by simpa [zc_nil] using h
+    subst this; simp [rzSpec]
+  | cons p ps ih =>
+    rw [zc_cons] at h
+    unfold rzSpec
+    by_cases hp : p = 0
+    · simp only [hp, if_true] at h ⊢
+      cases us with
+      | nil => simp at h; omega
+      | cons r rs =>
+        simp only [List.sum_cons, List.length_cons] at h ⊢
+        rw [ih rs (by omega)]; ring
+    · simp only [hp, if_false, List.sum_cons, zero_add] at h ⊢
+      rw [ih us h]; ring
+
+theorem rzSpec_getD (c : α) (pmf us : List α) (h : zc pmf ≤ us.length) (j : Nat)
+    (hj : j < pmf.length) :
+    (rzSpec c pmf us).getD j 0
+      = if pmf.getD j 0 = 0 then us.getD (zc (pmf.take j)) 0 else pmf.getD j 0 * c := by
+  induction pmf generalizing us j with
+  | nil => simp at hj
+  | cons p ps ih =>
+    rw [zc_cons] at h
+    unfold rzSpec
+    by_cases hp : p = 0
+    · simp only [hp, if_true] at h ⊢
+      cases us with
+      | nil => simp at h
+      | cons r rs =>
+        cases j with
+        | zero => simp [zc_nil]
+        | succ j =>
+          simp only [List.length_cons] at h hj
+          have := ih rs (by omega) j (by omega)
+          simp only [List.getD_cons_succ, List.take_succ_cons, this, zc_cons, if_true]
+          rw [Nat.add_comm 1, List.getD_cons_succ]
+    · simp only [hp, if_false, zero_add] at h ⊢
+      cases j with
+      | zero => simp [hp]
+      | succ j =>
+        simp only [List.length_cons] at hj
+        have := ih us h j (by omega)
+        simp only [List.getD_cons_succ, List.take_succ_cons, this, zc_cons, hp, if_false, zero_add]
+
+theorem rzSpec_pos (c : α) (hc : 0 < c) (pmf us : List α) (h : zc pmf ≤ us.length)
+    (hus : ∀ r ∈ us, 0 < r) (hnn : ∀ v ∈ pmf, 0 ≤ v) : ∀ v ∈ rzSpec c pmf us, 0 < v := by
+  induction pmf generalizing us with
+  | nil => simp [rzSpec]
+  | cons p ps ih =>
+    rw [zc_cons] at h
+    have hps : ∀ v ∈ ps, 0 ≤ v := fun v hv => hnn v (List.mem_cons_of_mem _ hv)
+    unfold rzSpec
+    by_cases hp : p = 0
+    · simp only [hp, if_true] at h ⊢
+      cases us with
+      | nil => simp at h
+      | cons r rs =>
+        simp only [List.length_cons] at h
+        intro v hv
+        rcases List.mem_cons.mp hv with e | hv
+        · subst e; exact hus _ (by simp)
+        · exact ih rs (by omega) (fun r hr => hus r (List.mem_cons_of_mem _ hr)) hps v hv
+    · simp only [hp, if_false, zero_add] at h ⊢
+      intro v hv
+      rcases List.mem_cons.mp hv with e | hv
+      · subst e
+        have : 0 < p := lt_of_le_of_ne (hnn p (by simp)) (Ne.symm hp)
+        exact mul_pos this hc
+      · exact ih us h hus hps v hv
+
+theorem zc_take_lt (pmf : List α) (j : Nat) (hj : j < pmf.length) (h0 : pmf.getD j 0 = 0) :
+    zc (pmf.take j) < zc pmf := by
+  induction pmf generalizing j with
+  | nil => simp at hj
+  | cons p ps ih =>
+    cases j with
+    | zero =>
+      have : p = 0 := by simpa using h0
+      simp [zc_cons, zc_nil, this]
+    | succ j =>
+      simp only [List.length_cons] at hj
+      have := ih j (by omega) (by simpa using h0)
+      simp only [List.take_succ_cons, zc_cons]; omega
+
+end ReplaceZeros
+
+/-! ## The clr-basis `ubasis` as a function of two indices -/
+
+section UB
+open Finset
+
+/-- The common factor `sqrt(i/(i+1))` of row `i`. -/
+noncomputable def sc (i : ℕ) : ℝ := Real.sqrt ((i : ℝ) / ((i + 1 : ℕ) : ℝ))
+
+/-- Entry `j` of row `i` of `ubasis` (it does not depend on the number of columns). -/
+noncomputable def ub (i j : ℕ) : ℝ :=
+  sc i * (if j < i then 1 / (i : ℝ) else if j = i then -1 else 0)
+
+theorem sc_sq (i : ℕ) : sc i * sc i = (i : ℝ) / ((i : ℝ) + 1) := by
+  unfold sc
+  rw [Real.mul_self_sqrt (by positivity)]
+  push_cast; rfl
+
+theorem ub_lt {i j : ℕ} (h : j < i) : ub i j = sc i * (1 / (i : ℝ)) := by
+  simp [ub, h]
+
+theorem ub_self (i : ℕ) : ub i i = - sc i := by
+  simp [ub]
+
+theorem ub_gt {i j : ℕ} (h : i < j) : ub i j = 0 := by
+  have h1 : ¬ j < i := by omega
+  have h2 : ¬ j = i := by omega
+  simp [ub, h1, h2]
+
+/-- Pairing a vector with row `i`: the scaled difference between the mean of the first `i`
+coordinates and coordinate `i`. -/
+theorem sum_mul_ub (f : ℕ → ℝ) (i N : ℕ) (hN : i < N) :
+    ∑ j ∈ range N, f j * ub i j = sc i * ((∑ j ∈ range i, f j) / (i : ℝ) - f i) := by
+  induction N, (show i + 1 ≤ N from hN) using Nat.le_induction with
+  | base =>
+    rw [sum_range_succ, ub_self]
+    have : ∑ j ∈ range i, f j * ub i j = ∑ j ∈ range i, f j * (sc i * (1 / (i : ℝ))) :=
+      sum_congr rfl (fun j hj => by rw [ub_lt (mem_range.mp hj)])
+    rw [this, ← sum_mul]
+    ring
+  | succ N hle ih =>
+    rw [sum_range_succ, ih (by omega), ub_gt (by omega)]
+    ring
+
+theorem ub_sum_zero (i N : ℕ) (hi : 1 ≤ i) (hN : i < N) : ∑ j ∈ range N, ub i j = 0 := by
+  have := sum_mul_ub (fun _ => 1) i N hN
+  simp only [one_mul, sum_const, card_range, nsmul_eq_mul, mul_one] at this
+  rw [this]
+  have : (i : ℝ) ≠ 0 := by
+    have : i ≠ 0 := by omega
+    exact_mod_cast this
+  rw [div_self this]; ring
+
+theorem ub_orth_self (i N : ℕ) (hi : 1 ≤ i) (hN : i < N) :
+    ∑ j ∈ range N, ub i j * ub i j = 1 := by
+  rw [sum_mul_ub (ub i) i N hN, ub_self]
+  have : ∑ j ∈ range i, ub i j = ∑ j ∈ range i, sc i * (1 / (i : ℝ)) :=
+    sum_congr rfl (fun j hj => by rw [ub_lt (mem_range.mp hj)])
+  rw [this, sum_const, card_range, nsmul_eq_mul]
+  have hi0 : (i : ℝ) ≠ 0 := by
+    have : i ≠ 0 := by omega
+    exact_mod_cast this
+  have hi1 : (i : ℝ) + 1 ≠ 0 := by positivity
+  have e : sc i * ((i : ℝ) * (sc i * (1 / (i : ℝ))) / (i : ℝ) - -sc i)
+      = (sc i * sc i) * (1 / (i : ℝ) + 1) := by
+    field_simp
+  rw [e, sc_sq]
+  field_simp
+
+theorem ub_orth_lt (i' i N : ℕ) (hi' : 1 ≤ i') (h : i' < i) (hN : i < N) :
+    ∑ j ∈ range N, ub i' j * ub i j = 0 := by
+  rw [sum_mul_ub (ub i') i N hN, ub_sum_zero i' i hi' h, ub_gt h]
+  simp
+
+/-- **Orthonormality** of the rows `1..N-1` in `ℝ^N`. -/
+theorem ub_orth (i i' N : ℕ) (hi : 1 ≤ i) (hi' : 1 ≤ i') (hN : i < N) (hN' : i' < N) :
+    ∑ j ∈ range N, ub i j * ub i' j = if i = i' then 1 else 0 := by
+  rcases Nat.lt_trichotomy i i' with h | h | h
+  · rw [if_neg (by omega)]; exact ub_orth_lt i i' N hi h hN'
+  · subst h; rw [if_pos rfl]; exact ub_orth_self i N hi hN
+  · rw [if_neg (by omega)]
+    have := ub_orth_lt i' i N hi' h hN
+    rw [← this]
+    exact sum_congr rfl (fun j _ => mul_comm _ _)
+
+/-- **Completeness**: the rows `1..n` span the orthogonal complement of `(1,…,1)` in
+`ℝ^(n+1)`. -/
+theorem ub_complete (n j j' : ℕ) (hj : j ≤ n) (hj' : j' ≤ n) :
+    ∑ k ∈ range n, ub (k + 1) j * ub (k + 1) j'
+      = (if j = j' then 1 else 0) - 1 / ((n : ℝ) + 1) := by
+  induction n with
+  | zero =>
+    have h1 : j = 0 := by omega
+    have h2 : j' = 0 := by omega
+    subst h1; subst h2; simp
+  | succ n ih =>
+    rw [sum_range_succ]
+    have hn1 : (n : ℝ) + 1 ≠ 0 := by positivity
+    have hn2 : (n : ℝ) + 1 + 1 ≠ 0 := by positivity
+    have hsq : sc (n + 1) * sc (n + 1) = ((n : ℝ) + 1) / ((n : ℝ) + 1 + 1) := by
+      rw [sc_sq]; push_cast; rfl
+    have hvan : ∀ g : ℕ → ℝ, ∑ k ∈ range n, ub (k + 1) (n + 1) * g k = 0 := by
+      intro g
+      apply sum_eq_zero
+      intro k hk
+      have := mem_range.mp hk
+      rw [ub_gt (by omega)]; ring
+    rcases Nat.lt_or_ge j (n + 1) with hjl | hjg
+    · rcases Nat.lt_or_ge j' (n + 1) with hjl' | hjg'
+      · rw [ih (by omega) (by omega), ub_lt hjl, ub_lt hjl']
+        have e : sc (n + 1) * (1 / ((n + 1 : ℕ) : ℝ)) * (sc (n + 1) * (1 / ((n + 1 : ℕ) : ℝ)))
+            = (sc (n + 1) * sc (n + 1)) * (1 / ((n : ℝ) + 1)) * (1 / ((n : ℝ) + 1)) := by
+          push_cast; ring
+        rw [e, hsq]
+        push_cast
+        field_simp
+        ring
+      · have e : j' = n + 1 := by omega
+        subst e
+        have hne : ¬ j = n + 1 := by omega
+        have h0 : ∑ k ∈ range n, ub (k + 1) j * ub (k + 1) (n + 1) = 0 := by
+          rw [← hvan (fun k => ub (k + 1) j)]
+          exact sum_congr rfl (fun k _ => mul_comm _ _)
+        rw [h0, ub_lt hjl, ub_self, if_neg hne]
+        have e : sc (n + 1) * (1 / ((n + 1 : ℕ) : ℝ)) * -sc (n + 1)
+            = -((sc (n + 1) * sc (n + 1)) * (1 / ((n : ℝ) + 1))) := by
+          push_cast; ring
+        rw [e, hsq]
+        push_cast
+        field_simp
+        ring
+    · have e : j = n + 1 := by omega
+      subst e
+      rw [hvan (fun k => ub (k + 1) j')]
+      rcases Nat.lt_or_ge j' (n + 1) with hjl' | hjg'
+      · have hne : ¬ n + 1 = j' := by omega
+        rw [ub_lt hjl', ub_self, if_neg hne]
+        have e : -sc (n + 1) * (sc (n + 1) * (1 / ((n + 1 : ℕ) : ℝ)))
+            = -((sc (n + 1) * sc (n + 1)) * (1 / ((n : ℝ) + 1))) := by
+          push_cast; ring
+        rw [e, hsq]
+        push_cast
+        field_simp
+        ring
+      · have e : j' = n + 1 := by omega
+        subst e
+        rw [ub_self, if_pos rfl]
+        have e : -sc (n + 1) * -sc (n + 1) = sc (n + 1) * sc (n + 1) := by ring
+        rw [e, hsq]
+        push_cast
+        field_simp
+        ring
+
+/-- Expanding in the basis and re-assembling gives the centred vector. -/
+theorem proj_complete (L : ℕ → ℝ) (n j : ℕ) (hj : j ≤ n) :
+    ∑ k ∈ range n, (∑ j' ∈ range (n + 1), L j' * ub (k + 1) j') * ub (k + 1) j
+      = L j - (∑ j' ∈ range (n + 1), L j') / ((n : ℝ) + 1) := by
+  have e1 : ∀ k ∈ range n, (∑ j' ∈ range (n + 1), L j' * ub (k + 1) j') * ub (k + 1) j
+      = ∑ j' ∈ range (n + 1), L j' * (ub (k + 1) j' * ub (k + 1) j) := by
+    intro k _
+    rw [sum_mul]
+    exact sum_congr rfl (fun j' _ => by ring)
+  rw [sum_congr rfl e1, sum_comm]
+  have e2 : ∀ j' ∈ range (n + 1), ∑ k ∈ range n, L j' * (ub (k + 1) j' * ub (k + 1) j)
+      = L j' * (if j' = j then 1 else 0) - L j' * (1 / ((n : ℝ) + 1)) := by
+    intro j' hj'
+    have := mem_range.mp hj'
+    rw [← mul_sum, ub_complete n j' j (by omega) hj]
+    ring
+  rw [sum_congr rfl e2, sum_sub_distrib, ← sum_mul]
+  simp only [mul_ite, mul_one, mul_zero]
+  rw [sum_ite_eq' (range (n + 1)) j L, if_pos (mem_range.mpr (by omega))]
+  ring
+
+/-- The coordinates of `Σ_k y_k u_k` in the basis are the `y_k`. -/
+theorem proj_orth (y : ℕ → ℝ) (n k : ℕ) (hk : k < n) :
+    ∑ j ∈ range (n + 1), (∑ k' ∈ range n, y k' * ub (k' + 1) j) * ub (k + 1) j = y k := by
+  have e1 : ∀ j ∈ range (n + 1), (∑ k' ∈ range n, y k' * ub (k' + 1) j) * ub (k + 1) j
+      = ∑ k' ∈ range n, y k' * (ub (k' + 1) j * ub (k + 1) j) := by
+    intro j _
+    rw [sum_mul]
+    exact sum_congr rfl (fun k' _ => by ring)
+  rw [sum_congr rfl e1, sum_comm]
+  have e2 : ∀ k' ∈ range n, ∑ j ∈ range (n + 1), y k' * (ub (k' + 1) j * ub (k + 1) j)
+      = y k' * (if k' = k then 1 else 0) := by
+    intro k' hk'
+    have := mem_range.mp hk'
+    rw [← mul_sum, ub_orth (k' + 1) (k + 1) (n + 1) (by omega) (by omega) (by omega) (by omega)]
+    simp
+  rw [sum_congr rfl e2]
+  simp only [mul_ite, mul_one, mul_zero]
+  rw [sum_ite_eq' (range n) k y, if_pos (mem_range.mpr hk)]
+
+/-- **Parseval**: the coordinates in the basis preserve the inner product of centred vectors. -/
+theorem parseval (a b : ℕ → ℝ) (n : ℕ) :
+    ∑ k ∈ range n, (∑ j ∈ range (n + 1), a j * ub (k + 1) j)
+        * (∑ j ∈ range (n + 1), b j * ub (k + 1) j)
+      = ∑ j ∈ range (n + 1), a j * b j
+        - (∑ j ∈ range (n + 1), a j) * (∑ j ∈ range (n + 1), b j) / ((n : ℝ) + 1) := by
+  have e1 : ∀ k ∈ range n, (∑ j ∈ range (n + 1), a j * ub (k + 1) j)
+        * (∑ j ∈ range (n + 1), b j * ub (k + 1) j)
+      = ∑ j ∈ range (n + 1), b j * ((∑ j' ∈ range (n + 1), a j' * ub (k + 1) j') * ub (k + 1) j) := by
+    intro k _
+    rw [mul_sum]
+    exact sum_congr rfl (fun j _ => by ring)
+  rw [sum_congr rfl e1, sum_comm]
+  have e2 : ∀ j ∈ range (n + 1),
+      ∑ k ∈ range n, b j * ((∑ j' ∈ range (n + 1), a j' * ub (k + 1) j') * ub (k + 1) j)
+      = a j * b j - b j * ((∑ j' ∈ range (n + 1), a j') / ((n : ℝ) + 1)) := by
+    intro j hj
+    have := mem_range.mp hj
+    rw [← mul_sum, proj_complete a n j (by omega)]
+    ring
+  rw [sum_congr rfl e2, sum_sub_distrib, ← sum_mul]
+  ring
+
+end UB
 
 end Dit.Lemmas.Aitchison
